@@ -185,6 +185,9 @@ structure InvA (w : Workload) (s : State) : Prop where
   want_jobs : s.cnt / 2 % 2 = 1 → s.cnt % 2 = 0 → 1 ≤ s.cnt / 4
   stolen_kind : s.stolen ≠ [] → s.kind = some .hard ∧ s.cnt % 2 = 1
   wait_exited : s.waitReturned = true → ∀ pc ∈ s.workers, pc = .exited
+  /-- `Submit` drops a job only if it saw the stop bit -/
+  dropping_was : ∀ sb ∈ s.subs, sb.pc = .dropping → s.cnt % 2 = 1
+  rejected_was : s.rejected ≠ [] → s.cnt % 2 = 1
 
 /-- ghost histories -/
 structure InvB (w : Workload) (s : State) : Prop where
@@ -264,11 +267,13 @@ macro "wfacts" h:ident : tactic =>
              have hH := countP_set_get WPc.isHeld $h
              have hAc := countP_set_get WPc.active $h
              have hCl := fun j => countP_set_get (WPc.isCalling j) $h
+             have hMs := fun x b hx hne => @mem_set_of_ne _ _ _ _ b x hx $h hne
              have hmem := List.mem_of_getElem? $h))
 
 /-- facts about `s.subs.set i _` from `h : s.subs[i]? = some sb` -/
 macro "sfacts" h:ident : tactic =>
   `(tactic| (have hSH := countP_set_get Sub.isHeld $h
+             have hsmem := List.mem_of_getElem? $h
              have hSN := countP_set_get Sub.isNotifying $h))
 
 macro "invA_close" : tactic =>
@@ -278,5 +283,32 @@ macro "invA_close" : tactic =>
 macro "invB_close" : tactic =>
   `(tactic| (constructor <;> unfold_do <;> bits_simp <;> (try simp only [inFlight] at *) <;>
       grind [WPc.isCalling, dropPc_cases, mem_set_cases, nodup_snoc]))
+
+theorem active_pos_of_no_parked {w : Workload} {s : State} (ha : InvA w s) (hq : s.queue ≠ [])
+    (hn : WPc.parked ∉ s.workers) (hw : 0 < w.workers) : 0 < s.workers.countP WPc.active := by
+  apply countP_all_pos
+  · intro pc hpc
+    apply active_of_not_gone_parked
+    · cases hg : pc.gone with
+      | false => rfl
+      | true => exact absurd (ha.gone_queue pc hpc hg) hq
+    · intro e; subst e; exact hn hpc
+  · rw [ha.wlen]; exact hw
+
+theorem active_pos_after_wake {w : Workload} {s : State} (ha : InvA w s) (hq : s.queue ≠ []) (hw : 0 < w.workers) :
+    0 < (s.workers.map wake).countP WPc.active := by
+  apply countP_all_pos
+  · intro pc hpc
+    obtain ⟨pc0, h0, h1⟩ := mem_map_wake hpc
+    subst h1
+    apply active_wake_of_not_gone
+    cases hg : pc0.gone with
+    | false => rfl
+    | true => exact absurd (ha.gone_queue pc0 h0 hg) hq
+  · rw [List.length_map, ha.wlen]; exact hw
+
+macro "invC_close" : tactic =>
+  `(tactic| (constructor <;> unfold_do <;> bits_simp <;>
+      grind [WPc.active, WPc.gone, Sub.isNotifying, mem_set_cases, parked_not_mem_wake]))
 
 end Yaclib.Pool
